@@ -14,6 +14,7 @@ func init() {
 	register(&Property{
 		ID: "C09",
 		Explanation: "Decides the part of the property its 'why tests cannot' singles out — a regression that moves per-request state onto shared structures or recomputes a stage: " +
+			"Round 12: R09.4 the admitting alternative is always recorded. " +
 			"R09.1 (who-may-write over the VTA call graph) no function reachable from a request handler or per-request Context method writes a field, map or captured variable of a shared structure (router tables, route entries, API registries, binders, package-level variables); only per-request objects (MatchedRoute, validation, denco params, the request itself) and objects freshly allocated in the same function are written; " +
 			"R09.2 every matched route handed to a request is a fresh allocation initialised with a COPY of the shared entry and freshly built parameters; R09.3 the handler table is only accessed between Lock and Unlock and every path releases the lock; " +
 			"R09.4 each memoising accessor reads the context key it writes, keys are pairwise distinct, and the dynamic type asserted on read is the static type stored on write; R09.5 each stage's computing call is reached only through the cache-miss edge, a hit returns the same request, and a miss stores the result in the returned request's context (so the body is consumed at most once and an accepting authenticator is not consulted again). " +
